@@ -361,9 +361,9 @@ theorem frAt_ge (fr : List Fr) (k : Nat) (h : fr.length ≤ k) : frAt fr k = {} 
   rw [List.getElem?_eq_none (by simpa using h)]
   rfl
 
-/-- the scope: no alternates, no block alternates, special lists only on `block` / `loop` / `if` / `else` -/
+/-- the scope: no block alternates, special lists only on `block` / `loop` / `if` / `else` (instruction-level alternates are allowed:
+    the resolver leaves them alone and the encoder writes them in place of the instruction) -/
 structure Plain (i : Instr) : Prop where
-  alt : i.alt = none
   blockAlt : i.blockAlt = none
   only : i.kind.isBlockStyle = false → i.semAfter = [] ∧ i.blockEntry = [] ∧ i.blockExit = []
 
@@ -398,7 +398,8 @@ def specRun (last : Nat) : Nat → List Fr → List Instr → Option (List Tok)
       else
         match specRun last (idx + 1) fr' is with
         | none => none
-        | some rest => some (i.before ++ b ++ [i.tok] ++ (if idx ≥ last then [] else i.after ++ a) ++ rest)
+        | some rest =>
+          some (i.before ++ b ++ (if idx ≥ last then [i.tok] else i.alt.getD [i.tok]) ++ (if idx ≥ last then [] else i.after ++ a) ++ rest)
 
 /-- the resolver's state agrees with a stack of frames -/
 structure Tied (s : RState) (fr : List Fr) : Prop where
@@ -814,8 +815,9 @@ theorem rloop_tied (last : Nat) : ∀ (xs : List Instr) (s : RState) (fr : List 
           (fun y hy => hp y (List.mem_cons_of_mem _ hy)) t (n3.trans hen) (n4.trans hex) hb2 (by rw [hlen]; exact h2)
         refine ⟨c' :: d', ?_, by simp [e0], ?_, ?_, ?_⟩
         · simp only [rloop]; rw [← hlen, e1]; simp
-        · simp only [emitFrom, cb, ca, cal.trans hpx.alt, ctok]
+        · simp only [emitFrom, cb, ca, cal, ctok]
           rw [← hlen, e2, ← hs]
+          cases x.alt <;> by_cases hl : done.length ≥ last <;> simp [hl]
         · simp only [rloop]; rw [← hlen, e3, n2]
         · simp only [rloop]; rw [← hlen, e4, n1]
 
@@ -871,7 +873,7 @@ theorem plain_modifyAt_mode (xs : List Instr) (j : Nat) (m : Option Mode) (hp : 
     · have hx : x ∈ xs := List.mem_of_getElem? h
       have px := hp x hx
       subst h1
-      exact ⟨px.alt, px.blockAlt, px.only⟩
+      exact ⟨px.blockAlt, px.only⟩
 
 theorem tied_init (body : List Instr) (entry exit : List Tok) (nlocals : Nat) :
     Tied ({ body := body, entry := entry, exit := exit, nlocals := nlocals } : RState) [{}] := by
